@@ -28,6 +28,11 @@ def corpus():
 def cases(rng, tier):
     a = c05.cases(rng.fork("c05"), tier)
     b = [c for c in c01.cases(rng.fork("c01"), tier) if c["kind"].startswith("crash@f") or c["kind"].startswith("crash@idx")]
+    for c in a:
+        # crash-free compaction histories run their rounds with a snapshot at every batch's publication
+        if not any(o[0] == "X" for o in c["ops"]):
+            c["ops"] = [["CSNAP"] if o[0] == "C" else o for o in c["ops"]]
+            c["show"] = c["show"].replace(" C ", " CSNAP ").replace(" C ", " CSNAP ")
     for c in a + b:
         c["kind"] = "c11/" + c["kind"]
     out = a + b[: max(8, len(a) // 2)]
@@ -69,6 +74,25 @@ def oracle(c, impl):
     for t in re.findall(r"\bc[sw]\d*:([0-9+]+):", impl.get("line") or ""):
         inputs |= {int(x) for x in t.split("+") if x}
     ops = [tuple(x)[0] for x in c["ops"]]
+    # (4) inside a compaction round: what a batch published (its directory is named by segments.idx at the batch's
+    # "live list updated" step) has the same files at every later step of the round and at the next observation
+    published = {}
+    snaps = impl.get("snaps", []) if "HIDE" not in ops else []   # (the injected fault renames a file itself)
+    for i, sn in enumerate(snaps):
+        later_obs = impl["obs"][sn["after_obs"]]["hashes"] if sn["after_obs"] < len(impl["obs"]) else None
+        for seg, files in sn["hashes"].items():
+            if seg in published and published[seg][1] != files:
+                return (f"compaction round, step {sn['at']} (snapshot {i}): published segment {seg} differs from what it held when "
+                        f"snapshot {published[seg][0]} saw it listed in segments.idx (files {sorted(set(files) ^ set(published[seg][1]))[:4]} ...): "
+                        f"a published directory was written to")
+            if int(seg) in sn["listed"] and files:
+                published.setdefault(seg, (i, files))
+        if later_obs is not None and (i + 1 == len(snaps) or snaps[i + 1]["after_obs"] != sn["after_obs"]):
+            for seg, (j, files) in published.items():
+                if seg in later_obs and later_obs[seg] != files:
+                    return (f"obs#{sn['after_obs']}: segment {seg} differs from what it held when the compaction round published it "
+                            f"(snapshot {j}; files {sorted(set(files) ^ set(later_obs[seg]))[:4]} ...)")
+            published = {}
     for n, o in enumerate(impl["obs"]):
         # (3) crash-free, fault-free histories: a complete segment directory that no compaction took as an input is
         # named by segments.idx (a published segment does not drop out of the index while its files stay behind)
